@@ -17,6 +17,7 @@ CONSTANTS
   Eagers = {TRUE, FALSE}
   Holds = {0, 3, 6, 10}
   HoldFors = {3, 7, 12}
+  Situations = FALSE
   Algo = "none"
   Impl = "asis"
   Sampling = TRUE
